@@ -1,7 +1,7 @@
 (* Props/C16.v — property theorems only (C16 Brace expansion matches bash).
    Model: Expand/Braces.v (SplitBraces, printer rendering, bracesSeqRec/BracesSeq after the fix: commits
    recorded in known_findings.jsonl; Spec = bash's brace_expand). A word is one literal, w : str. *)
-From Verif Require Import Base.Str Expand.Braces Proofs.BracesProofs Proofs.BracesPrintProofs Proofs.BracesSimProofs.
+From Verif Require Import Base.Str Expand.Braces Proofs.BracesProofs Proofs.BracesPrintProofs Proofs.BracesSeqProofs Proofs.BracesSeqTermProofs Proofs.BracesSimProofs.
 
 (* 1. splitting braces leaves the word's printed form unchanged *)
 Theorem C16_split_preserves_text : forall w, render (snd (split_braces w)) = render [PLit w].
@@ -77,11 +77,14 @@ Theorem C16_expand_matches_spec_short_partial : forall w,
 Proof. exact expand_matches_spec_short. Qed.
 Print Assumptions C16_expand_matches_spec_short_partial.
 
-(* scope D (UNBOUNDED length and nesting depth): regular words = plain runs (no { } , . \) and comma groups with
-   at least two alternatives, properly nested and closed. [regular] is a decidable recogniser; [U t] is the word of
-   a tree t of the grammar. Proved by a simulation between the stack splitter + bracesSeqRec and bash's
-   gobbler-based recursion. Missing for the full statement outside the listed classes: sequences {x..y[..n]},
-   '.' and backslashes in the text, unclosed or unmatched braces (covered by scopes B/C up to the stated lengths). *)
+(* scope D (UNBOUNDED length and nesting depth): regular words = plain runs (no { } , . \), comma groups with at
+   least two alternatives, and clean sequences {x..y} / {x..y..n} (x, y single ASCII letters, or decimal int64 numbers
+   with optional '-' and leading zeros, outside bash's end-start overflow guard; n a decimal int64 other than -2^63),
+   all properly nested and closed, to any depth. [regular] is a decidable recogniser; [U t] is the word of a tree t of
+   the grammar. Proved by a simulation between the stack splitter + bracesSeqRec and bash's gobbler-based recursion,
+   with the sequence loop reduced to its closed form. Missing for the full statement outside the listed classes:
+   '+' signs and out-of-range numbers, '.' and backslashes in plain text, unclosed or unmatched braces, {x}
+   (covered by scopes B/C up to the stated lengths, by the code leg and by the search). *)
 Theorem C16_expand_matches_spec_regular_partial : forall w, regular w = true -> to_sres (expand_word w) = spec w.
 Proof. exact expand_matches_spec_regular_word. Qed.
 Print Assumptions C16_expand_matches_spec_regular_partial.
@@ -94,6 +97,42 @@ Print Assumptions C16_expand_matches_spec_tree_partial.
 Theorem C16_spec_regular_is_product : forall t, ok_wt t = true -> spec (U t) = lim (T t).
 Proof. intros t H. rewrite (spec_regular t H). exact (proj1 E_lim t H). Qed.
 Print Assumptions C16_spec_regular_is_product.
+
+(* the Go sequence loop equals its closed form (count_up k n s = n, n+s, ..., k values), cut after fuel values *)
+Theorem C16_seq_loop_closed_form_up : forall f n to step k, (0 < step)%Z -> (to <= MAX64)%Z -> (n <= to)%Z ->
+  ((to - n) / step = Z.of_nat k)%Z -> seq_loop f true n to step = count_up (Nat.min f (S k)) n step.
+Proof. exact seq_loop_up. Qed.
+Print Assumptions C16_seq_loop_closed_form_up.
+Theorem C16_seq_loop_closed_form_down : forall f n to step k, (0 < step)%Z -> (MIN64 <= to)%Z -> (to <= n)%Z ->
+  ((n - to) / step = Z.of_nat k)%Z -> seq_loop f false n to (- step) = count_up (Nat.min f (S k)) n (- step).
+Proof. exact seq_loop_down. Qed.
+Print Assumptions C16_seq_loop_closed_form_down.
+
+(* Go's ParseInt and the Spec's strtoimax agree on decimal numbers: same value, accepted iff it fits int64 *)
+Theorem C16_readers_agree : forall s, is_num s = true ->
+  strtoimax s = Some (num_val s, []) /\ snd (parse_int s) = in64 (num_val s)
+  /\ (in64 (num_val s) = true -> fst (parse_int s) = num_val s).
+Proof. exact readers_agree. Qed.
+Print Assumptions C16_readers_agree.
+
+(* a clean sequence: SplitBraces accepts it, Go's values V are non-empty, and bash's result is V cut at the limit *)
+Theorem C16_clean_sequence_agrees : forall d, sq_okb d = true ->
+  seq_values (sq_es d) = Ok (sq_vals d) /\ sq_vals d <> [] /\ seq_broken (sq_es d) = false
+  /\ tack_of (sq_text d) = BracesSeqProofs.lim (sq_vals d).
+Proof. intros d H. destruct (sq_agree d H) as (A & B & C & D & _). auto. Qed.
+Print Assumptions C16_clean_sequence_agrees.
+
+Example C16_ex_regular_seq :   (* a{{1..3},{x..z..2}b}{08..10} : regular, in no listed class, 15 words *)
+  let w := [97;123;123;49;46;46;51;125;44;123;120;46;46;122;46;46;50;125;98;125;123;48;56;46;46;49;48;125] in
+  regular w = true /\ known_class w = false
+  /\ spec w = Words [[97;49;48;56]; [97;49;48;57]; [97;49;49;48]; [97;50;48;56]; [97;50;48;57]; [97;50;49;48];
+                     [97;51;48;56]; [97;51;48;57]; [97;51;49;48]; [97;120;98;48;56]; [97;120;98;48;57]; [97;120;98;49;48];
+                     [97;122;98;48;56]; [97;122;98;48;57]; [97;122;98;49;48]].
+Proof. exact ex_regular_seq. Qed.
+Example C16_ex_regular_many :   (* x{1..20000} : regular; both sides: more than 16384 words *)
+  let w := [120;123;49;46;46;50;48;48;48;48;125] in
+  regular w = true /\ spec w = Many /\ expand_word w = Err E_LIMIT.
+Proof. exact ex_regular_many. Qed.
 
 Example C16_ex_regular :   (* a{b,{c,d}e,}f{x,y} is regular, in no listed class, and expands to 8 words *)
   let w := [97;123;98;44;123;99;44;100;125;101;44;125;102;123;120;44;121;125] in
